@@ -778,9 +778,17 @@ xar_write_data(struct archive_write *a, const void *buff, size_t s)
 			for (i = off; i < end && b[i] != '\0' &&
 			    b[i] != '\n' && b[i] != '\r' &&
 			    b[i] != ' ' && b[i] != '\t'; i++)
-				;
-			archive_strncpy(&(xar->cur_file->script), b + off,
-			    i - off);
+				if (b[i] < 0x21 || b[i] > 0x7e)
+					break;	/* Not text: not a script. */
+			/*
+			 * The path goes into the XML TOC verbatim: bytes that
+			 * are not printable ASCII would make the whole
+			 * archive unreadable.
+			 */
+			if (i >= end || b[i] == '\0' || b[i] == '\n' ||
+			    b[i] == '\r' || b[i] == ' ' || b[i] == '\t')
+				archive_strncpy(&(xar->cur_file->script),
+				    b + off, i - off);
 		}
 	}
 #endif
